@@ -37,9 +37,11 @@ class Ctx:
         self.driver = None
         self.proof_ok = True
         self.notes = []
+        self.escalated = []  # anchored source files whose AST differs from source_fingerprints.json
 
     def quick(self):
-        return self.tier == "quick"
+        # a quick check of a property whose anchored sources changed spends the thorough budget
+        return self.tier == "quick" and not self.escalated
 
 
 def run_witnesses(pid):
@@ -66,6 +68,16 @@ def main():
         out = mod.replay(ctx, payload) if hasattr(mod, "replay") else {"error": "no replay function"}
         print(json.dumps(out, indent=1, default=str))
         sys.exit(1 if out.get("violation") else 0)
+
+    try:
+        import fingerprint
+
+        ctx.escalated = fingerprint.changed(pid) if tier == "quick" else []
+    except Exception as e:  # noqa: BLE001
+        ctx.notes.append("fingerprint comparison failed: %s" % e)
+    if ctx.escalated:
+        ctx.notes.append("anchored sources differ from source_fingerprints.json (%s): the quick tier ran with the thorough tier's case counts"
+                         % ", ".join(ctx.escalated))
 
     broken = []  # proof obligations / machinery that no longer check
     # ---- 1. proof side
